@@ -117,9 +117,11 @@ def embed_3d_via_rdkit(mol_graph):
     conf = rdkit_mol.GetConformer()
 
     # write the positions to the original molecule graph
-    for ndx, atom in enumerate(rdkit_mol.GetAtoms()):
+    # atoms were added in the iteration order of the nodes
+    nodes = list(mol_graph.nodes)
+    for atom in rdkit_mol.GetAtoms():
         pos = conf.GetAtomPosition(atom.GetIdx())
-        mol_graph.nodes[ndx]['position'] = np.array([pos.x, pos.y, pos.z])
+        mol_graph.nodes[nodes[atom.GetIdx()]]['position'] = np.array([pos.x, pos.y, pos.z])
 
     return mol_graph
 
